@@ -530,6 +530,35 @@ inductive AppOp where
   | drain                     -- `ensure_future(drain())` on the session's writer
   deriving DecidableEq, Repr, Inhabited
 
+/-! ### the code before the repairs of the audit findings (witness theorems in Props/C09.lean) -/
+
+/-- `_process_data` before the repair: dropped data was not credited -/
+def processDataPreFix (c : Chan) : R :=
+  if c.recvSt ≠ .opn then R.fail c .proto
+  else if c.recvWin - c.recvBuf < 1 then R.fail c .proto
+  else acceptDataPreFix c
+
+def abortPreFix (c : Chan) : R :=
+  let r1 := if c.sendSt ≠ .closePending ∧ c.sendSt ≠ .closed then closeSend c else R.ok c
+  r1.andThen fun c => if c.recvSt ≠ .closed then discardRecvPreFix c else R.ok c
+
+def closePreFix (c : Chan) : R :=
+  let r1 := if c.sendSt ≠ .closePending ∧ c.sendSt ≠ .closed then
+              flushSendBuf { c with sendEofPending := decide (c.sendSt = .eofPending), sendSt := .closePending }
+            else R.ok c
+  r1.andThen fun c => if c.recvSt ≠ .closed then discardRecvPreFix c else R.ok c
+
+def exitPreFix (c : Chan) : R :=
+  if c.sendSt ≠ .closePending ∧ c.sendSt ≠ .closed then
+    (closePreFix c).pre (sendPkt c (.req .exitStatus false))
+  else R.ok c
+
+def processMsgPreFix (c : Chan) (m : CMsg) : R :=
+  match m with
+  | .data => processDataPreFix c
+  | .close => processClosePreFix c
+  | m => processMsg c m
+
 def appOp (c : Chan) : AppOp → R
   | .write => write c
   | .eof => writeEof c
@@ -540,5 +569,11 @@ def appOp (c : Chan) : AppOp → R
   | .exit => if c.server then exit c else R.ok c
   | .limits hi lo => setLimits c hi lo
   | .drain => R.ok (drain c)
+
+def appOpPreFix (c : Chan) : AppOp → R
+  | .close => closePreFix c
+  | .abort => abortPreFix c
+  | .exit => if c.server then exitPreFix c else R.ok c
+  | o => appOp c o
 
 end AsyncsshModel.Lifecycle
